@@ -69,21 +69,6 @@ theorem sections_flatten (arr : List (List K)) : (sections arr).map List.flatten
       rfl
     rw [this]; simp
 
-theorem allSame_iff (l : List Nat) : allSame l = true ↔ ∀ a ∈ l, ∀ b ∈ l, a = b := by
-  cases l with
-  | nil => simp [allSame]
-  | cons x xs =>
-    simp only [allSame, List.all_eq_true, beq_iff_eq, List.mem_cons]
-    constructor
-    · intro h a ha b hb
-      rcases ha with rfl | ha <;> rcases hb with rfl | hb
-      · rfl
-      · exact (h b hb).symm
-      · exact h a ha
-      · rw [h a ha, h b hb]
-    · intro h a ha
-      exact h a (Or.inr ha) x (Or.inl rfl)
-
 theorem zipWith_take_drop (leaves : List (List (List K))) (f : List (List K) → Nat) :
     List.zipWith (· ++ ·) (leaves.map fun l => l.take (f l)) (leaves.map fun l => l.drop (f l)) = leaves := by
   induction leaves with
